@@ -139,6 +139,12 @@ def r3_pickle_layout(ctx, rule):
             later[st.value.id] = U(st.targets[0])
     resolved = [later.get(x, x) for x in loads]
     facts = {'dumped': dumps, 'loaded_into': resolved}
+    n_load_calls = sum(1 for c in calls_in(lfn) if call_name(c) == 'pickle.load')
+    if n_load_calls and len(loads) != n_load_calls:
+        # the loads are there but not as `<place> = pickle.load(file)` statements (a comprehension, unpacking of a list of loads ...)
+        ctx.unk(rule, lq, 'load_session reads the pickled fields in a form the rule does not follow (%d pickle.load calls, %d plain '
+                'assignments)' % (n_load_calls, len(loads)), facts)
+        return
     if ctx.floor(rule, MCF, len(dumps), 3, 'pickle.dump calls'):
         if dumps == resolved:
             ctx.ok(rule, lq, 'load_session restores the %d pickled fields in the order save_session wrote them' % len(dumps), facts)
